@@ -253,10 +253,9 @@ PROPS = {
                 "classes (all 27 build/semantic message kinds except MainIsMissing, unary minus on a non-integer, missing ';' and ')'), "
                 "each a template statement/declaration inserted without removing anything: JUDGEFAULT (exactly the expected rule is "
                 "reported, on a range overlapping the culprit tokens, and no other rule). " + TEXT_RULE,
-        "unproved_parts": ["PROVED for the model: welltyped_analysis_identity / welltyped_diagnostics (every tree the typing specification "
-                           "accepts passes table::build and table::analyze unchanged, so its diagnostics are exactly the parser's); NOT yet "
-                           "theorems: that the parser attaches no diagnostic to a syntactically valid text (C04's conformance, compared by "
-                           "SPECPARSE/SPECDIAG on every run) and the per-rule fault theorems (JUDGEFAULT on the implementation, model tied by NEW)",
+        "unproved_parts": ["PROVED for the model: valid_text_no_diagnostics (a text that lexes, whose tokens the grammar specification derives a program "
+                           "from and whose program the typing specification accepts, gets no diagnostic at all), welltyped_analysis_identity, "
+                           "welltyped_diagnostics; NOT theorems: the per-rule fault statements (JUDGEFAULT on the implementation, model tied by NEW)",
                            "MainIsMissing has no construct to lie on and is not injected"],
     },
     "C01": {
